@@ -50,6 +50,7 @@ func Load(repo string, overlay map[string][]byte) (*Engine, error) {
 	e.setupErrTypes()
 	e.registerStd()
 	e.registerIntrinsics()
+	e.registerFS()
 	return e, nil
 }
 
